@@ -457,6 +457,19 @@ def raise_discipline(ctx):
     rs = [n for n in u.own_nodes() if isinstance(n, ast.Raise) and not in_handler_of(n) and is_name(n.exc, errvar)]
     ok = len(rs) == 1
     ctx.ob(ok, u, 'the translated error is raised outside the handler (no implicit chaining): %s' % [norm(r) for r in rs])
+    unguarded = ok and not [a for a in ancestors(rs[0]) if isinstance(a, ast.If)]
+    if unguarded:
+        # ``try: .. except: <bind err> else: return ret`` followed by a plain ``raise err``: the raise
+        # is reached from the handler only, after err was bound there
+        rn = cfg.node_of(rs[0])
+        binds = {n for n in cfg.nodes if n.kind == 'stmt' and isinstance(n.ast, ast.Assign) and is_name(n.ast.targets[0], errvar)
+                 and not (isinstance(n.ast.value, ast.Constant) and n.ast.value.value is None)}
+        okp, wit = cfg.must_pass(cfg.entry, {rn}, binds)
+        ctx.ob(okp and bool(binds), u, 'the error is raised only after the handler bound it (the successful path returns before)',
+               '' if okp else 'a path reaches `raise %s` without a translated error: %s' % (errvar, fmt_witness(cfg, wit)), node=rs[0])
+        ctx.ob(True, u, 'no error is pending before the evaluation: the raise is unreachable from the successful path')
+        ctx.floor(8)
+        return
     if ok:
         g = [a for a in ancestors(rs[0]) if isinstance(a, ast.If)]
         t = g[0].test if g else None
@@ -614,6 +627,12 @@ def glom_options(ctx):
                        'an option is read by its name: %s' % norm(n), node=n)
                 if isinstance(b['k'], ast.Constant):
                     pops[b['k'].value] = (n.targets[0].id, b['d'])
+    # ... every option, also the ones read inside the root-frame display
+    for c in calls_in(u):
+        if isinstance(c.func, ast.Attribute) and c.func.attr == 'pop' and is_name(c.func.value, kw):
+            k = c.args[0] if c.args else None
+            okk = isinstance(k, ast.Constant) and isinstance(k.value, str) and len(c.args) == 2
+            ctx.ob(okk, u, 'option read by name with a fallback: %s' % norm(c), '' if okk else 'the option name is not the first argument', node=c)
     need = {'default', 'skip_exc', 'glom_debug'}
     ctx.ob(need <= set(pops), u, 'default, skip_exc and glom_debug are options of glom(): %s' % sorted(pops))
     if not need <= set(pops):
